@@ -4,6 +4,7 @@ import (
 	"fmt"
 	"strings"
 	"sync"
+	"sync/atomic"
 
 	"github.com/platinummonkey/go-concurrency-limits/core"
 )
@@ -147,10 +148,10 @@ func (nopLogger) IsDebugEnabled() bool                     { return false }
 func (nopLogger) String() string                           { return "nopLogger" }
 
 // debugLogger exercises the debug branches (formats every message).
-type debugLogger struct{ n int }
+type debugLogger struct{ n atomic.Int64 }
 
 func (l *debugLogger) Debugf(msg string, params ...interface{}) {
 	_ = fmt.Sprintf(msg, params...)
-	l.n++
+	l.n.Add(1)
 }
 func (l *debugLogger) IsDebugEnabled() bool { return true }
